@@ -872,7 +872,7 @@ def _lbk(x):
 
 
 def _parse_mat(s):
-    return np.array([float(Fraction(t)) for t in s.split()], dtype=float)
+    return np.array([common.fracf(t) for t in s.split()], dtype=float)
 
 
 def run(ctx):
